@@ -5,7 +5,7 @@
 #include <cstdio>
 
 namespace vk {
-struct PairTraits { bool ab, ba, aa, bb; int protocol_status; };
+struct PairTraits { bool ab, ba, aa, bb; int protocol_status; int sig_mismatch; };
 struct PairDef { const char* a; const char* b; int expected; const char* rules; PairTraits (*traits)(); };
 std::vector<PairDef> fung_pairs();
 }
@@ -144,7 +144,7 @@ int main(int argc, char** argv) {
       PairTraits t = fc.pairs[pi].traits();
       const TypeOps& A = c.types[fc.by_name[fc.pairs[pi].a]]; const TypeOps& B = c.types[fc.by_name[fc.pairs[pi].b]];
       bool comp = compatible(*A.schema, *B.schema);
-      if (!t.aa || !t.bb || t.ab != t.ba || ((t.ab || t.ba) && !comp) || (fc.pairs[pi].expected == 1 && comp && !(t.ab && t.ba))) m = "static trait check fails";
+      if (!t.aa || !t.bb || t.ab != t.ba || ((t.ab || t.ba) && !comp) || (fc.pairs[pi].expected == 1 && comp && !(t.ab && t.ba)) || t.sig_mismatch > 0) m = "static trait check fails";
     } else m = pair_case(fc, pi, tape_parse(line.substr(tpos + 6)));
     if (!m.empty()) { printf("REPLAY-FAIL %s\n", m.c_str()); return 1; }
     printf("REPLAY-PASS\n"); return 0;
@@ -169,9 +169,11 @@ int main(int argc, char** argv) {
     else if (t.ab != t.ba) stat = fmt("not-symmetric: IsFungible<A,B>=%d but IsFungible<B,A>=%d for A = %s, B = %s", t.ab, t.ba, p.a, p.b);
     else if ((t.ab || t.ba) && !comp) stat = fmt("fungible-but-incompatible: IsFungible is true but the wire formats differ: A = %s (%s), B = %s (%s) [rules %s]", p.a, schema_text(*A.schema).c_str(), p.b, schema_text(*B.schema).c_str(), p.rules);
     else if (p.expected == 1 && comp && !(t.ab && t.ba)) stat = fmt("documented-pair-not-fungible: A = %s, B = %s built by documented rules [%s] evaluates to false", p.a, p.b, p.rules);
+    else if (t.sig_mismatch > 0) stat = fmt("signature-trait: IsFungible on function signatures built from A = %s and B = %s disagrees with IsFungible<A,B>=%d / IsFungible<B,A>=%d (forms: 1 void(const A&) 2 int(A&&,int) 4 void(const A&)/void(B) 8 A()/B() 16 A(const B&)/B(const A&) 32 arity 64 reversed; mask %d)", p.a, p.b, t.ab, t.ba, t.sig_mismatch);
     else if (t.protocol_status > 0) stat = fmt("protocol-write-read-failed: Protocol<A>::Write/Read with B returned an error (%d) for A = %s, B = %s", t.protocol_status, p.a, p.b);
     if (!stat.empty()) { c.rep.fail(stat, ctext, "C09|" + stat.substr(0, stat.find(':')) + "|" + p.rules); continue; }
     c.rep.label(t.ab ? "trait-true" : "trait-false");
+    if (t.sig_mismatch == 0) c.rep.label("signature-forms-checked");
     if (p.expected == 1 && !comp) c.rep.exclude("rule composition that is not wire-compatible: no expectation on the trait");
     if (p.expected == 1) c.rep.label("expected-true"); else c.rep.label("near-miss");
     if (std::string(p.a) != p.b && t.ab) c.rep.label("true-and-distinct");
